@@ -216,3 +216,44 @@ def register_to_stable(reg):
             "tags-in-order": "forall(lambda t: implies(0 <= t < len(keys(gaf_line.tags)), result[12 + t] == cat(keys(gaf_line.tags)[t], gaf_line.tags[keys(gaf_line.tags)[t]])))",
         },
     ))
+
+
+# ---- C02: the two streaming generators -------------------------------------------------------------------------------------------
+from .phase_c import PathAlignment, GAFObjP  # noqa
+GAFIn = ObjT("GAF", records=ListT(Alignment))
+GAFIn.name = "Obj<GAFIn>"
+
+
+def _gaf_ctor(eng, args):
+    return {"records": eng_state_ghost(eng, "records0")}
+
+
+def eng_state_ghost(eng, name):
+    return eng.cur_state_env[name]
+
+
+def register_streaming(reg):
+    reg.add(Contract(file="(assumed)/gafin.py", func="GAF.read_file", params=dict(self=GAFIn), returns=ListT(Alignment), trusted=True,
+                     ensures={"records": "same(result, self.records)"}, variant="#conv"))
+    reg.add(Contract(file="(assumed)/gafin.py", func="GAF.close", params=dict(self=GAFIn), trusted=True, variant="#conv"))
+    reg.add(Contract(file=CONV, func="to_stable", variant="#caller", params=dict(gaf_line=Alignment, nodes=DictT(STR, StableNode), ref_contig=SetT(STR), contig_len=DictT(STR, INT)),
+                     returns=LINE, pure=True, trusted=True, notes="caller view: a deterministic function of its arguments (body verified as to_stable)"))
+    reg.add(Contract(file=CONV, func="to_unstable", variant="#caller", params=dict(gaf_line=Alignment, reference=DictT(STR, ListT(GNode))),
+                     returns=LINE, pure=True, trusted=True, notes="caller view: a deterministic function of its arguments"))
+    for fn, callee, extra in (("unstable_to_stable", "to_stable", dict(nodes=DictT(STR, StableNode), ref_contig=SetT(STR), contig_len=DictT(STR, INT))),
+                              ("stable_to_unstable", "to_unstable", dict(reference=DictT(STR, ListT(GNode))))):
+        args = ", ".join(extra)
+        reg.add(Contract(
+            file=CONV, func=fn, fragment=("for gaf_line in gaf_input.read_file()", 1),
+            params=dict(gaf_input=GAFIn, yielded=ListT(LINE), **extra),
+            call_overrides={callee: (CONV, callee + "#caller")},
+            requires=["len(yielded) == 0"],
+            loops={1: Loop(index="it1", fingerprint="for gaf_line in gaf_input.read_file()", invariant={
+                "one-output-per-record-so-far": "len(yielded) == it1",
+                "in-input-order": "forall(lambda j: implies(0 <= j < it1, yielded[j] == %s(gaf_input.records[j], %s)))" % (callee, args),
+            })},
+            ensures={
+                "exactly-one-output-record-per-input-record": "len(yielded) == len(gaf_input.records)",
+                "in-input-order-each-the-conversion-of-its-record": "forall(lambda j: implies(0 <= j < len(gaf_input.records), yielded[j] == %s(gaf_input.records[j], %s)))" % (callee, args),
+            },
+        ))
